@@ -3,13 +3,13 @@ module verifharness
 go 1.22
 
 require (
+	github.com/klauspost/compress v1.18.0
 	github.com/opencontainers/go-digest v1.0.0
 	github.com/regclient/regclient v0.0.0
 )
 
 require (
 	github.com/docker/libtrust v0.0.0-20160708172513-aabc10ec26b7 // indirect
-	github.com/klauspost/compress v1.18.0 // indirect
 	github.com/sirupsen/logrus v1.9.3 // indirect
 	github.com/ulikunitz/xz v0.5.12 // indirect
 	golang.org/x/sys v0.30.0 // indirect
